@@ -902,7 +902,7 @@ fn find_case(part: &str, tier: Tier, want: u64) -> Option<Case> {
 }
 
 fn sweep(part: &str, tier: Tier) -> SweepOut {
-    let exe = std::env::current_exe().expect("exe");
+    let exe = crate::report::worker_exe();
     let nsh = nthreads() as u64;
     let mut out = SweepOut { cases: 0, reached: [0; 6], panics: vec![], aborts: vec![], hangs: vec![], max_alloc: 0 };
     let results: Vec<(Vec<J>, Vec<(u64, String)>, Vec<u64>)> = std::thread::scope(|sc| {
@@ -1035,7 +1035,7 @@ pub fn run(tier: Tier) -> i32 {
     }
     // growth families: each (family, n) in its own process on an 8 MiB stack
     let ns: &[usize] = tier.pick(&[8, 16, 32, 64], &[8, 16, 32, 64, 128, 256, 512]);
-    let exe = std::env::current_exe().expect("exe");
+    let exe = crate::report::worker_exe();
     // one job per family: sizes in increasing order, stopping at the first death or hang
     let fams: Vec<&str> = FAMILIES.to_vec();
     let fam_outs: Vec<Vec<(usize, Option<J>, String, f64)>> = crate::report::par_map(&fams, || (), |_, f| {
